@@ -91,6 +91,20 @@ the committed quick tier of their own property. The recurring blind spots:
   rarely used node kind in every well-typed argument position (C12), handlers attached
   after the first visit (C16), AST well-formedness of the returned node (C10), the nesting
   ORDER of unary-like operators over the same leaves (C09).
+* *Wave 13* (24 changes on the final tree, two per agent for twelve properties, 18 reported at once, 6 misses, all closed): a named
+  parameter whose NAME is qualified (`ns.f(ns.p=1)`; the renderer wrote `node.name.name`; C13 compound leaves); a table alias other
+  than the lower-case word every layer had used - `T1`, `my-alias`, `tbl 2`, `été`, `select` - which the Athena dialect's identifier
+  rule must not touch (C09 `alias-spellings`); a date-time literal with seconds plus a fraction or an offset, cut down to `hh:mm:ss`
+  by the standard dialect only (C09 and C12 `datetime-components`: 270 literals x 4 templates, the one string constant of the SQL is
+  read back independently as date, time of day, fraction and offset); a minus applied directly to `indexof(...)`, whose expansion
+  `INSTR(..) - 1` lost its parentheses - the leaf sets and the unary nesting order are the same in `(-INSTR) - 1` and `-(INSTR - 1)`,
+  so C09's span oracle could not see it although C01 saw the wrong rows; C09 now has a *compositional* oracle (`compositional-operands`:
+  the SQL of an operand translated alone is ONE subtree, modulo parentheses, of the SQL of every context that uses it; 20 operands x
+  23 contexts x 3 dialects); a pattern that starts with an inline regex flag, `(?i)...`, moved into the SQL text by the Django
+  `matchesPattern` (C08 `marked-strings`: 23 strings a translator might treat specially x every string position x 4 backends must
+  compile to the SQL text of `'x'`). The sixth miss, `C16-w13A`, is a rewriter that narrows its alias table in place and restores the
+  wrong one on leaving a nested lambda: the trees stay untouched, the *substitution* is wrong, and C14 - whose quantifier it belongs
+  to - reports it (`lambda-variable-rewritten`, and the shared-instance schedules).
 * *Wave 12* (40 changes on the tree of wave 11, 23 reported at once, 17 misses, all closed): concatenation through `add` - the
   library's own tests pin `'donut' add 'tello'`, the typed grammar had `add` on numbers only; R-EVAL now concatenates two strings, C03
   has a `string-add` layer (an operand swap "for commutative operators" is invisible on numbers) and C02's turned up a genuine defect
